@@ -48,29 +48,31 @@ def gen_pickles(rng, n, **kw):
             hist[k] = hist.get(k, 0) + v
     return out, hist
 
-def decoder_domain(rng, tier, pid):
+def decoder_domain(rng, tier, pid, scale=1.0, sweep=True):
     """list of (tag, bytes): kept failures first, then corpus, generated, mutated, soup, bombs"""
     q = tier == "quick"
     dom = [("kept", d) for d in kept_corpus(pid)]
     corp = [d for d in corpus_files() if model_ok_input(d)]
     r = rng.fork("corpus")
-    if q and len(corp) > 700:
-        idx = sorted(set(r.below(len(corp)) for _ in range(700)))
+    ncorp = int(700 * scale)
+    if q and len(corp) > ncorp:
+        idx = sorted(set(r.below(len(corp)) for _ in range(ncorp)))
         corp_s = [corp[i] for i in idx]
     else:
         corp_s = corp
     dom += [("corpus", d) for d in corp_s]
-    gen, hist = gen_pickles(rng.fork("gen"), 1500 if q else 20000)
+    gen, hist = gen_pickles(rng.fork("gen"), int((1500 if q else 20000) * scale))
     dom += [("gen", d) for d in gen]
     r = rng.fork("mut")
     base = gen + corp_s
-    for i in range(1500 if q else 20000):
+    for i in range(int((1500 if q else 20000) * scale)):
         dom.append(("mut", G.mutate(r, r.choice(base), 1 + r.below(3))))
     r = rng.fork("soup")
-    for i in range(800 if q else 10000):
+    for i in range(int((800 if q else 10000) * scale)):
         dom.append(("soup", G.random_opcode_soup(r, 1 + r.below(40))))
     dom += [("bomb", d) for d in G.length_bombs()]
-    dom += [("sweep", d) for d in G.stack_sweep()]
+    if sweep:
+        dom += [("sweep", d) for d in G.stack_sweep()]
     dom = [(t, d) for (t, d) in dom if model_ok_input(d)]
     return dom, hist
 
@@ -444,3 +446,5 @@ def c11(res, rng, tier):
         "rule": "streams of 1..8 self-contained pickles (grammar pickles at mixed protocols, hand-assembled memo-free programs leaving extra operands / marks / a protocol number / buffer contents behind, pickles failing at their last byte) + all ordered pairs of the hand-assembled ones, x 4 configs; each call compared with the same pickle decoded alone; earlier results re-dumped after the last call; non-trivial = streams whose every call matched",
         "programs": len(lines), "disagreements_checked": len(lines), "opcode_histogram_generated": hist})
     res.samples = [{"pickles_hex": [p.hex()[:40] for p in meta[i][0]], "impl": impl[i][:160]} for i in range(0, len(lines), max(1, len(lines) // 6))]
+import props_py
+import props_misc
